@@ -1,6 +1,6 @@
 (* The comparison functions that the correspondence engine evaluates on harness output
    (extracted to OCaml for volume; the same definitions run under vm_compute for the cross-check). *)
-From AidlV Require Export Run.Sx Model.Validation Spec.Master Spec.Nodes Model.ParserState Model.Diag Model.Serde.
+From AidlV Require Export Run.Sx Model.Validation Spec.Master Spec.Nodes Model.ParserState Model.Diag Model.Serde Model.LrDriver.
 
 (* verdicts: 0 = holds, 1 = fails, 2 = the harness output could not be decoded, 3 = unknown check *)
 Definition run_bool {X} (d : sx -> option X) (f : X -> bool) (s : sx) : N :=
@@ -340,10 +340,12 @@ Definition corr_C12 (c : list hop * list (list str)) : bool :=
      end) [] ops keys.
 
 (* ------------------------------------------------------------------ C20: P lines (source, parse-stage result, raw expectation vectors) *)
-Record pcase := PC { pc_src : str; pc_fr : file_result; pc_expected : list (list str) }.
+Record pcase := PC { pc_src : str; pc_lc : list (N * N); pc_fr : file_result; pc_expected : list (list str) }.
 Definition d_pcase (s : sx) : option pcase :=
   match s with
-  | L [src; fr; ex] => do src' <- d_str src; do fr' <- d_fr fr; do ex' <- d_list (d_list d_str) ex; Some (PC src' fr' ex')
+  | L [src; lc; fr; ex] =>
+      do src' <- d_str src; do lc' <- d_list (d_pair d_N d_N) lc; do fr' <- d_fr fr; do ex' <- d_list (d_list d_str) ex;
+      Some (PC src' lc' fr' ex')
   | _ => None
   end.
 Definition has_expectation (d : diag) : bool := ctx_is "unrecognized EOF" d || ctx_is "unrecognized token" d.
@@ -372,6 +374,17 @@ Definition corr_C20 (c : pcase) : bool :=
 Definition corr_C19 (trees : list aidl) : bool :=
   forallb (fun a => option_eqb aidl_eqb (roundtrip a) (Some a)) trees.
 
+(* ------------------------------------------------------------------ the parser model against add_content (P lines) *)
+Definition fr_eqb_msg (a b : file_result) : bool :=
+  str_eqb (fr_id a) (fr_id b) && option_eqb aidl_eqb (fr_ast a) (fr_ast b) &&
+  list_eqb diag_eqb_msg (fr_diags a) (fr_diags b).
+(* lexer + LR driver + actions + javadoc + diagnostics of the model = what the library stored, messages included *)
+Definition corr_parse (c : pcase) : bool :=
+  match add_content (Ctx (pc_src c) (pc_lc c)) (fr_id (pc_fr c)) with
+  | Added fr => fr_eqb_msg fr (pc_fr c)
+  | _ => false
+  end.
+
 Definition checks : list (string * (sx -> N)) :=
   [ ("corr_validate"%string, run_bool d_vcase corr_validate);
     ("corr_C09"%string, run_bool d_vcase corr_C09);
@@ -387,10 +400,23 @@ Definition checks : list (string * (sx -> N)) :=
     ("spec_C11_sorted"%string, run_bool d_vcase spec_C11_sorted);
     ("corr_C12"%string, run_bool d_hcase corr_C12);
     ("spec_C20"%string, spec_C20); ("corr_C20"%string, run_bool d_pcase corr_C20);
+    ("corr_parse"%string, run_bool d_pcase corr_parse);
     ("corr_C19"%string, run_bool (fun s => match s with L [x] => d_list d_aidl x | _ => None end) corr_C19) ].
 
 Definition dispatch (name : str) (s : sx) : N :=
   match find (fun c => str_eqb (lit (fst c)) name) checks with
   | Some c => snd c s
   | None => 3
+  end.
+
+(* debugging aid: the model's and the implementation's parse-stage diagnostics as (start, end, message) *)
+Definition dshow (d : diag) := (p_off (r_start (d_range d)), p_off (r_end (d_range d)), d_msg d).
+Definition debug_parse (s : sx) :=
+  match d_pcase s with
+  | None => None
+  | Some c =>
+      Some (match add_content (Ctx (pc_src c) (pc_lc c)) (fr_id (pc_fr c)) with
+            | Added fr => (0, option_eqb aidl_eqb (fr_ast fr) (fr_ast (pc_fr c)), map dshow (fr_diags fr))
+            | AddPanic => (1, false, []) | AddFuel => (2, false, []) | AddBad => (3, false, [])
+            end, map dshow (fr_diags (pc_fr c)))
   end.
